@@ -186,13 +186,13 @@ impl Default for AppBehaviour {
 }
 
 #[derive(Default)]
-pub struct Rec {
+pub struct CbLog {
     pub log: Vec<(u64, Cb)>,
 }
 
 #[derive(Clone)]
 pub struct Shared {
-    pub rec: Arc<Mutex<Rec>>,
+    pub rec: Arc<Mutex<CbLog>>,
     pub beh: Arc<Mutex<AppBehaviour>>,
     pub start: tokio::time::Instant,
 }
@@ -408,7 +408,7 @@ impl OutRig {
     pub async fn start(cfg: OutConfig, beh: AppBehaviour) -> OutRig {
         super::init_tracing();
         let start = tokio::time::Instant::now();
-        let shared = Shared { rec: Arc::new(Mutex::new(Rec::default())), beh: Arc::new(Mutex::new(beh)), start };
+        let shared = Shared { rec: Arc::new(Mutex::new(CbLog::default())), beh: Arc::new(Mutex::new(beh)), start };
         let modes = LinkModes::stream(if cfg.discard { LinkErrorMode::Discard } else { LinkErrorMode::Close });
         let (task, handle) = OutstationTask::create(
             Enabled::Yes,
